@@ -13,6 +13,11 @@
 //!         argmax     adm-ok | panic             (see above)
 //!         threshold  n <count> <sorted keys…>   or, above 4096 keys,  n <count> h <fnv-style hash of the sorted keys>
 //!                    key = row*C+col for pipelines, the returned offset for disp-* / scores
+//!
+//! case:   c07isa unpack <lo|hi> <32 bytes of a> <32 bytes of b>       answer: the 32 bytes of _mm256_unpack{lo,hi}_epi8(a, b)
+//!         c07isa perm <imm> <16 u16 of a> <16 u16 of b>               answer: the 16 u16 of _mm256_permute2x128_si256(a, b, imm)
+//!         (the two rearranging intrinsics of argmax_u8_avx2, executed on this CPU, against the source-index
+//!          maps `unpackEpi8Src` / `half128` of the model; all-distinct labellings determine them completely)
 use crate::out::*;
 use crate::rng::Rng;
 use crate::Cfg;
@@ -345,6 +350,83 @@ pub fn exec(line: &str) -> (String, String, Option<Result<(), String>>, bool) {
     (toks.join(" "), ans, o, nt)
 }
 
+
+// ------------------------------------------------------------------------------------ ISA validation
+
+#[cfg(target_arch = "x86_64")]
+mod isa {
+    use std::arch::x86_64::*;
+
+    #[target_feature(enable = "avx2")]
+    pub unsafe fn unpack(hi: bool, a: &[u8; 32], b: &[u8; 32]) -> [u8; 32] {
+        let va = _mm256_loadu_si256(a.as_ptr() as *const _);
+        let vb = _mm256_loadu_si256(b.as_ptr() as *const _);
+        let r = if hi { _mm256_unpackhi_epi8(va, vb) } else { _mm256_unpacklo_epi8(va, vb) };
+        let mut out = [0u8; 32];
+        _mm256_storeu_si256(out.as_mut_ptr() as *mut _, r);
+        out
+    }
+
+    macro_rules! perm_arms {
+        ($imm:expr, $va:expr, $vb:expr, $($k:literal),*) => {
+            match $imm {
+                $($k => _mm256_permute2x128_si256::<$k>($va, $vb),)*
+                _ => panic!("immediate not in the validation set"),
+            }
+        };
+    }
+
+    pub const IMMS: &[i32] = &[0x00, 0x01, 0x02, 0x03, 0x10, 0x12, 0x13, 0x20, 0x21, 0x30, 0x31, 0x32, 0x08, 0x80, 0x28, 0x83, 0x88];
+
+    #[target_feature(enable = "avx2")]
+    pub unsafe fn perm(imm: i32, a: &[u16; 16], b: &[u16; 16]) -> [u16; 16] {
+        let va = _mm256_loadu_si256(a.as_ptr() as *const _);
+        let vb = _mm256_loadu_si256(b.as_ptr() as *const _);
+        let r = perm_arms!(imm, va, vb, 0x00, 0x01, 0x02, 0x03, 0x10, 0x12, 0x13, 0x20, 0x21, 0x30, 0x31, 0x32, 0x08, 0x80, 0x28, 0x83, 0x88);
+        let mut out = [0u16; 16];
+        _mm256_storeu_si256(out.as_mut_ptr() as *mut _, r);
+        out
+    }
+}
+
+fn exec_isa(line: &str) -> String {
+    let t: Vec<&str> = line.split_whitespace().collect();
+    assert!(std::is_x86_feature_detected!("avx2"));
+    match t[1] {
+        "unpack" => {
+            let v: Vec<u8> = t[3..67].iter().map(|x| x.parse().unwrap()).collect();
+            let (mut a, mut b) = ([0u8; 32], [0u8; 32]);
+            a.copy_from_slice(&v[..32]);
+            b.copy_from_slice(&v[32..]);
+            join(unsafe { isa::unpack(t[2] == "hi", &a, &b) }.iter())
+        }
+        _ => {
+            let imm: i32 = t[2].parse().unwrap();
+            let v: Vec<u16> = t[3..35].iter().map(|x| x.parse().unwrap()).collect();
+            let (mut a, mut b) = ([0u16; 16], [0u16; 16]);
+            a.copy_from_slice(&v[..16]);
+            b.copy_from_slice(&v[16..]);
+            join(unsafe { isa::perm(imm, &a, &b) }.iter())
+        }
+    }
+}
+
+fn generate_isa(rng: &mut Rng, cases: &mut Vec<String>) {
+    for hi in ["lo", "hi"] {
+        // all-distinct labelling, then random contents
+        cases.push(format!("c07isa unpack {} {}", hi, join((0..64u32).map(|x| x))));
+        for _ in 0..6 {
+            cases.push(format!("c07isa unpack {} {}", hi, join((0..64).map(|_| rng.below(256)))));
+        }
+    }
+    for &imm in isa::IMMS {
+        cases.push(format!("c07isa perm {} {}", imm, join((0..32u32).map(|x| 1000 + x))));
+        for _ in 0..2 {
+            cases.push(format!("c07isa perm {} {}", imm, join((0..32).map(|_| rng.below(65536)))));
+        }
+    }
+}
+
 // ------------------------------------------------------------------------------------ generator
 
 const NEG_INF: u32 = 0xFF80_0000;
@@ -488,6 +570,7 @@ fn thresholds(ty: &str, above: u32, typical: u32) -> Vec<u32> {
 pub fn generate(cfg: &Cfg) -> Vec<String> {
     let mut rng = Rng::new(cfg.seed ^ 0xC07);
     let mut cases = Vec::new();
+    generate_isa(&mut rng, &mut cases);
     for ty in ["f32", "u8"] {
         let nkinds = if ty == "f32" { 7 } else { 5 };
         for (backend, c) in combos(ty) {
@@ -572,7 +655,7 @@ pub fn generate(cfg: &Cfg) -> Vec<String> {
                 cases.push(line(ty, backend, c, "max", rows, rows * c, None, &m));
             }
             // E. random stream
-            let count = (if cfg.thorough { 400 } else { 40 }) * cfg.boost;
+            let count = (if cfg.thorough { 1500 } else { 150 }) * cfg.boost;
             for k in 0..count {
                 let rows = if k % 9 == 0 { rng.range(0, 300) } else { rng.range(0, 40) };
                 let n = rows * c;
@@ -614,6 +697,12 @@ pub fn run(cfg: &Cfg) {
     let cases = crate::replay_cases(cfg).unwrap_or_else(|| generate(cfg));
     let mut out = Out::new(&cfg.out);
     for c in &cases {
+        if c.starts_with("c07isa ") {
+            out.stat("isa");
+            let ans = exec_isa(c);
+            out.case(c, &ans, None, false);
+            continue;
+        }
         let (filled, ans, o, nt) = exec(c);
         let t: Vec<&str> = c.splitn(7, ' ').collect();
         out.stat(&format!("{}/{}/C{}/{}", t[1], t[2], t[3], t[4]));
